@@ -103,6 +103,20 @@ Theorem ring_accounts_for_drops : forall (n : nat) (es : list rev),
 Proof. exact ring_accounts_for_drops_l. Qed.
 Print Assumptions ring_accounts_for_drops.
 
+(* (6b) Close of the asynchronous loggers, as the source orders its two Close calls (GENERATED fact
+   async_close_closes_both: both are made unconditionally): whatever the Close of either slow writer returns, both
+   sides are closed and — Set atomic as in (6) — after Close nothing is missing without having been reported, on
+   either ring. *)
+Theorem async_close_drains_both : forall (n : nat) (es_out es_err : list rev) (e_fails o_fails : bool),
+  let c := async_close async_close_closes_both e_fails o_fails in
+  let go := ring_after_close (snd c) (rrun (rinit n) es_out) in
+  let ge := ring_after_close (fst c) (rrun (rinit n) es_err) in
+  c = (true, true) /\
+  length (rsent go) - length (rdeliv go) = sum (ralerts go) /\
+  length (rsent ge) - length (rdeliv ge) = sum (ralerts ge).
+Proof. exact async_close_drains_both_l. Qed.
+Print Assumptions async_close_drains_both.
+
 (* (7) FINDING (stuck-in-ring-at-close).  With Set at the granularity of its atomic operations (fetch-add, load,
    compare-and-swap with retry) statement (6) is FALSE: when the reader discards a stale bucket between a producer's
    load and its compare-and-swap, the producer re-sends under the next sequence number and the slot at readIndex
